@@ -337,7 +337,10 @@ func (l *Lexer) readChar() {
 	// Return if we are already at the end of the input. Note that
 	// when position == len(l.characters) the current character is
 	// considered to be EOF, so that position is considered valid.
-	if l.position > len(l.characters) {
+	// Stay on the position just past the input once it is reached: every
+	// further EOF token then has that same position, which is the last one
+	// that a diagnostic can point at
+	if l.position >= len(l.characters) {
 		return
 	}
 
@@ -649,19 +652,18 @@ func (l *Lexer) GetLineText(t token.Token) string {
 		panic(fmt.Errorf("invalid token start line: %d", tokenStart.Line))
 	}
 
-	// Find the start of the line containing the given token
+	// Find the start of the line containing the given token. The EOF token
+	// sits just past the input: on the last line, or on an empty line of its
+	// own when the input ends with a newline.
 	start := tokenStart.Char
-	if t.Type == token.EOF {
-		start--
+	if start > len(l.characters) {
+		start = len(l.characters)
 	}
+	end := start
 	for start > 0 && l.characters[start-1] != rune('\n') {
 		start--
 	}
 	// Find the end of that line
-	end := tokenStart.Char
-	if t.Type == token.EOF {
-		end--
-	}
 	for end < len(l.characters) && l.characters[end] != rune('\n') {
 		end++
 	}
